@@ -1406,7 +1406,7 @@ func (client *client) readHandle() {
 				err = codes.ErrProtocol
 				return
 			}
-			if !bytes.Equal(client.opts.AuthMethod, auth.Properties.AuthData) {
+			if !bytes.Equal(client.opts.AuthMethod, auth.Properties.AuthMethod) {
 				codeErr = codes.ErrProtocol
 				return
 			}
